@@ -134,8 +134,81 @@ let spec_on cfg db hops obs =
     seeder_spec_ok cfg db (sops_of (zi cfg.c_maxchunks) hops) xs ms incs pend
   with _ -> false
 
+(* ---------- the real utils/workers pool against the extracted WorkersFifo.wstep ---------- *)
+let eval_pool header ops obs =
+  let cap = (match header with [_; c] -> int_of_string c | _ -> failwith "bad pool header") in
+  let s = ref (w_init (nat_of_int cap) (nat_of_int 1)) in
+  let out = ref [] in
+  let emit t = out := t :: !out in
+  let stepm o = (match wstep !s o with Some s' -> s := s'; true | None -> false) in
+  let worker () = (match !s.w_workers with [w] -> w | _ -> WGone) in
+  let ntok () = emit ("n" ^ string_of_int (List.length !s.w_tasks)) in
+  let settle () = (match worker (), !s.w_tasks with
+      | WIdle, t :: _ -> if stepm (WTake (nat_of_int 0)) then emit ("s" ^ tok_of_n t)
+      | _ -> ()) in
+  let finish () = (match worker () with
+      | WBusy t -> if stepm (WFinish (nat_of_int 0)) then Some t else None
+      | _ -> None) in
+  let quit_tail () =
+    (* after quit select chooses at random between quit and a queued task: the implementation's
+       X token says which tasks were still executed; replay exactly that *)
+    ignore (stepm WQuit);
+    let xs = (match List.find_opt (fun t -> t.[0] = 'X') obs with
+        | Some t -> List.filter (fun x -> x <> "") (String.split_on_char ',' (String.sub t 1 (String.length t - 1)))
+        | None -> []) in
+    let done_ = ref [] in
+    (match finish () with Some t -> done_ := [tok_of_n t] | None -> ());
+    let rest = (match !done_, xs with [d], x :: r when x = d -> r | [], l -> l | _ -> xs) in
+    List.iter (fun x ->
+        match !s.w_tasks with
+        | t :: _ when tok_of_n t = x ->
+          if stepm (WTake (nat_of_int 0)) && stepm (WFinish (nat_of_int 0)) then done_ := !done_ @ [x]
+        | _ -> ()) rest;
+    ignore (stepm (WExit (nat_of_int 0)));
+    emit ("X" ^ String.concat "," !done_) in
+  let quit_done = ref false in
+  List.iter (fun op -> if not !quit_done then begin
+    (match op with
+     | ["e"; id] ->
+       let t = n_of_tok id in
+       let ok = (match worker () with
+           | WIdle -> stepm (WHandoff (t, nat_of_int 0))       (* idle worker: rendezvous *)
+           | _ -> stepm (WEnqueue t)) in
+       if ok then (emit "e+"; (match worker () with WBusy t' when t' = t -> emit ("s" ^ id) | _ -> ()))
+       else emit "e-"
+     | ["g"] -> (match finish () with Some t -> emit ("f" ^ tok_of_n t); settle () | None -> emit "g-")
+     | ["d"] -> emit ("d" ^ string_of_int (List.length !s.w_tasks)); ignore (stepm WDrain)
+     | ["q"] -> quit_done := true; quit_tail ()
+     | _ -> failwith "bad pool op");
+    ntok () end) ops;
+  if not !quit_done then (quit_tail (); ntok ());
+  let mo = List.rev !out in
+  (* specification on the implementation's observation: executed tasks (f and X tokens) are an
+     order-preserving sub-sequence of the accepted ones, each at most once; the channel never
+     holds more than cap tasks *)
+  let accepted = ref [] and executed = ref [] and capok = ref true in
+  let ids = List.filter_map (function ["e"; id] -> Some id | _ -> None) ops in
+  let pending_ids = ref ids in
+  List.iter (fun t -> match t.[0] with
+      | 'e' -> (match !pending_ids with id :: r -> pending_ids := r; if t = "e+" then accepted := !accepted @ [id] | [] -> ())
+      | 'f' -> executed := !executed @ [String.sub t 1 (String.length t - 1)]
+      | 'X' -> executed := !executed @ List.filter (fun x -> x <> "") (String.split_on_char ',' (String.sub t 1 (String.length t - 1)))
+      | 'n' -> if int_of_string (String.sub t 1 (String.length t - 1)) > cap then capok := false
+      | _ -> ()) obs;
+  let rec sub a b = (match a, b with
+      | [], _ -> true | _, [] -> false
+      | x :: a', y :: b' -> if x = y then sub a' b' else sub a b') in
+  (* Drain empties the channel: the count right after it is 0 *)
+  let rec drain_ok = function
+    | d :: n :: r when d.[0] = 'd' -> n = "n0" && drain_ok (n :: r)
+    | _ :: r -> drain_ok r
+    | [] -> true in
+  { default_verdict with model_obs = mo; spec_ok = Some (sub !executed !accepted && !capok && drain_ok obs);
+    model_spec_ok = true; nontrivial = List.length !executed > 1 }
+
 let eval inp obs =
   let header, ops = groups inp in
+  if (match header with "W" :: _ -> true | _ -> false) then eval_pool header ops obs else
   let (cfg, db) = parse_header header in
   let hops = List.map hop_of ops in
   if not (well_formed hops) then { default_verdict with model_obs = ["BAD"]; nontrivial = false }
